@@ -59,7 +59,6 @@ func init() {
 			"numbers in bodies are integers |n| ≤ 10^6 and n+0.5 (exact in float64); number texts in forms are decimal [+-]digits or [+-]digits.5 without leading zeros, or non-numeric",
 			"encoding/json, net/url.ParseQuery, mime, mime/multipart, yaml3 and encoding/csv are trusted: what they make of the body text is an input of the model; YAML texts stay inside the JSON data model (no timestamps, no non-string keys)",
 			"array properties of form bodies carry items; per-property styles only form/spaceDelimited/pipeDelimited on arrays; object-typed properties inside composition members of a form schema, one name declared as integer and as number, the zip decoder and form decoders nested inside multipart parts are outside the model and not generated",
-			"defaults below `not` (the partial mutations of the failing visit stay in the value) are outside the model and not generated",
 			"where a default decides the verdict (caseNeutral false) the oracle is the two-phase reading (completed value) for composition-free schemas; for schemas with compositions only implementation vs model is compared",
 		},
 	})
@@ -1482,6 +1481,13 @@ func genDefaults(ctx *hx.Ctx, emit func(hx.Case)) {
 			sch("ty", "object", "oneOf", []any{sch("required", []any{"a"}, "props", []any{[]any{"a", sch("dflt", jI(1))}}), sch("required", []any{"b"}, "props", []any{[]any{"b", sch("dflt", jI(2))}})}),
 			sch("ty", "object", "anyOf", []any{sch("required", []any{"z"}, "props", []any{[]any{"a", sch("dflt", jI(1))}}), sch("props", []any{[]any{"b", sch("dflt", jI(2))}})}),
 			sch("ty", "object", "props", []any{[]any{"a", sch("nullable", true, "dflt", jI(1))}}, "required", []any{"a"}),
+			// defaults below `not` (tried on a private copy since repair 197d46a: nothing reaches the value)
+			sch("ty", "object", "not", sch("props", []any{[]any{"a", sch("dflt", jI(1))}}, "required", []any{"b"}), "addl", false),
+			sch("ty", "object", "not", sch("props", []any{[]any{"a", sch("dflt", jI(1))}}, "required", []any{"a"})),
+			sch("ty", "object", "not", sch("props", []any{[]any{"a", sch("ty", "integer", "dflt", jS("bad"))}})),
+			sch("ty", "object", "props", []any{[]any{"o", sch("ty", "object", "not", sch("required", []any{"k"}, "props", []any{[]any{"k", sch("dflt", jI(1))}}))}}),
+			sch("ty", "object", "allOf", []any{sch("not", sch("props", []any{[]any{"a", sch("dflt", jI(1))}}, "required", []any{"z"})), sch("addl", false, "props", []any{[]any{"b", sch("ty", "integer")}})}),
+			sch("ty", "object", "not", sch("anyOf", []any{sch("required", []any{"a"}, "props", []any{[]any{"a", sch("dflt", jI(1))}})})),
 		}
 		values := []any{jO(), jO("o", jO()), jO("o", jO("k", jI(3))), jO("o", jO("m", jS("z"))), jO("o", nil), jA(), jA(jO()), jA(jO("k", jI(1)), jO("m", jS("w"))),
 			jO("l", jA(jO())), jO("p", jS("s")), jO("a", jI(5)), jO("a", nil), jO("a", jS("long")), jO("b", jI(1)), jO("a", jI(1), "b", jI(2)), jS("x"), nil}
@@ -1535,6 +1541,30 @@ func genDefaults(ctx *hx.Ctx, emit func(hx.Case)) {
 									c["skipDefaults"] = skip
 									emit(c)
 								}
+							}
+						}
+					}
+				}
+			}
+		}
+		// nested defaults under media types without encoder: JSON object parts completed by their own defaults, object
+		// defaults that are completed again, defaults inside members of the part schema
+		{
+			inner := sch("ty", "object", "props", []any{[]any{"k", sch("ty", "integer")}, []any{"m", sch("ty", "string", "dflt", jS("q"))}, []any{"r", sch("ty", "integer", "ro", true, "dflt", jI(7))}})
+			innerReq := sch("ty", "object", "props", []any{[]any{"k", sch("ty", "integer")}, []any{"m", sch("ty", "string", "dflt", jS("q"))}}, "required", []any{"m"})
+			innerAll := sch("ty", "object", "allOf", []any{sch("props", []any{[]any{"m", sch("dflt", jS("q"))}}), sch("required", []any{"m"})})
+			withD := sch("ty", "object", "props", []any{[]any{"k", sch("ty", "integer")}, []any{"m", sch("ty", "string", "dflt", jS("q"))}}, "dflt", jO("k", jI(1)))
+			for _, in := range []any{inner, innerReq, innerAll, withD} {
+				for _, rq := range [][]any{{}, {"o"}} {
+					sm := sch("ty", "object", "props", []any{[]any{"o", in}, []any{"b", sch("ty", "string")}, []any{"l", sch("ty", "array", "items", in)}}, "required", rq)
+					for _, parts := range [][]c06Part{{{name: "o", ct: "application/json", text: `{}`}}, {{name: "o", ct: "application/json", text: `{"k":2}`}, {name: "b", text: "x"}},
+						{{name: "b", text: "x"}}, {{name: "o", ct: "application/json", text: `{"m":"z","r":1}`}}, {{name: "l", ct: "application/json", text: `{}`}, {name: "l", ct: "application/json", text: `{"k":"bad"}`}},
+						{{name: "l", ct: "application/json", text: `{"k":1}`}}, {{name: "o", ct: "application/yaml", text: "k: 3\n"}}} {
+						for _, exro := range []bool{false, true} {
+							for _, skip := range []bool{false, true} {
+								c := mkCase(true, []any{mtEntry("multipart/form-data", sm)}, mct, renderMultipart(bd, parts, false), exro)
+								c["skipDefaults"] = skip
+								emit(c)
 							}
 						}
 					}
@@ -1722,7 +1752,7 @@ func c06RandSchema(r *hx.Rng, depth int) map[string]any {
 		}
 		kw := hx.Pick(r, []string{"allOf", "anyOf", "oneOf", "allOf", "anyOf", "oneOf", "not"})
 		if kw == "not" {
-			s["not"] = c06StripDflt(member()) // defaults below `not` are outside the model
+			s["not"] = member() // since repair 197d46a the schema below `not` is tried on a private copy
 		} else {
 			ms := []any{}
 			for i, k := 0, 1+r.Intn(3); i < k; i++ {
@@ -2103,6 +2133,12 @@ func randCase0(r *hx.Rng) hx.Case {
 			}
 			if t == "object" {
 				p["props"] = []any{[]any{"k", sch("ty", "integer")}}
+				if r.Chance(30) {
+					p["props"] = []any{[]any{"k", sch("ty", "integer")}, []any{"m", sch("ty", "string", "dflt", jS("q"))}}
+					if r.Chance(30) {
+						p["required"] = []any{"m"}
+					}
+				}
 			}
 			if r.Chance(20) {
 				p["ro"] = true
